@@ -368,6 +368,9 @@ func e4OracleC05(r *e4Result) string {
 			if q.Kind != "pub" {
 				continue
 			}
+			if m := r.Case.Cfg.MaxPayload; m > 0 && len(e.Pkt.Payload) >= m {
+				return fmt.Sprintf("PUBLISH #%d on c%d carries %d payload bytes although the client's MaxPayloadLen is %d: a message over the configured maximum must be rejected before anything is written (submitted as idx %d, Publish returned %v)", e.Seq, e.Conn, len(e.Pkt.Payload), m, s.Idx, q.Err)
+			}
 			if e.Pkt.Topic != s.Topic || !bytes.Equal(e.Pkt.Payload, e4Payload(s.Idx, s.Extra)) || e.Pkt.QoS != s.QoS || e.Pkt.Retain != s.Retain || (s.ID != 0 && s.QoS > 0 && e.Pkt.ID != s.ID) {
 				return fmt.Sprintf("PUBLISH #%d on c%d %v differs from the submitted message idx %d {topic %q q%d retain %v id %d}", e.Seq, e.Conn, *e.Pkt, s.Idx, s.Topic, s.QoS, s.Retain, s.ID)
 			}
